@@ -1340,3 +1340,50 @@ def rule_detach_clears_pointer(ctx):
                 ctx.violated("DETACHNULL", key, f.where(), "decrements %s.attached but leaves access_rec->special_info standing when the record is still shared; %s then detaches through it a second time and frees the record under the other access records" % (rec, ", ".join(sorted(redetach[rec]))))
     ctx.floor("DETACHNULL", 2, n, "(detaching routines of kinds whose start-access re-detaches)")
     return n
+
+
+def rule_sd_file_id_halves(ctx):
+    """IDHALVES (C13): SDstart issues `(slot << 20) + (CDFTYPE << 16) + slot`: the file's slot twice.  SDIhandle_from_id looks
+    the file up with the top copy; file-level routines (SDend, SDsetfillmode) then act on the low copy (`id & 0xffff` handed
+    to ncclose/ncsetfill).  An id is one that was issued only if the copies agree, so the validator compares them for file
+    ids - otherwise the top half of one open file with the low half of another passes and the call lands on the other file."""
+    from .facts import calls_in
+    prog = ctx.prog
+    v = prog.func("SDIhandle_from_id")
+    n = 0
+    if v is None:
+        ctx.unrecognised("IDHALVES", "IDHALVES:SDIhandle_from_id", "-", "validator not found")
+        return 0
+
+    def has(e, pred):
+        return any(pred(x) for x in walk(e, True))
+
+    low = lambda x: x[0] == "bin" and x[1] == "&" and is_int(x[3]) and int_val(x[3]) == 0xffff
+    agree = False
+    shifted = set()
+    for _b, _i, _s, x in v.nodes(True):
+        if x[0] == "asg" and x[1] == "=" and kind(strip(x[2])) == "var" and has(x[3], lambda y: y[0] == "bin" and y[1] == ">>" and is_int(y[3]) and int_val(y[3]) == 20):
+            shifted.add(strip(x[2])[1])
+    for _b, _i, _s, x in v.nodes(True):
+        if x[0] == "bin" and x[1] in ("==", "!="):
+            for a_, b_ in ((x[2], x[3]), (x[3], x[2])):
+                if has(a_, low) and (has(b_, lambda y: y[0] == "bin" and y[1] == ">>") or (kind(strip(b_)) == "var" and strip(b_)[1] in shifted)):
+                    agree = True
+    for f in prog.lib_funcs():
+        if not f.rel.endswith("mfhdf/src/mfsd.c") or f is v:
+            continue
+        validates = any(c[1] == "SDIhandle_from_id" and len(c[3]) > 1 and "CDFTYPE" in render(c[3][1]) for _b, _i, _s, c in f.calls())
+        uses_low = False
+        for _b, _i, _s, x in f.nodes(True):
+            if low(x) and kind(strip(x[2])) == "var" and strip(x[2])[1] in {(p[0] if isinstance(p, (list, tuple)) else p.get("name")) for p in f.params}:
+                uses_low = True
+        if not (validates and uses_low):
+            continue
+        n += 1
+        key = "IDHALVES:%s" % f.name
+        if agree:
+            ctx.holds("IDHALVES", key, f.where(), "acts on the low copy of the file slot; SDIhandle_from_id compares it with the top copy it validates", nontrivial=True)
+        else:
+            ctx.violated("IDHALVES", key, f.where(), "acts on `id & 0xffff` while SDIhandle_from_id validates only `id >> 20`: an id mixing two open files passes and the call lands on the other file")
+    ctx.floor("IDHALVES", 2, n, "(file-level SD routines that act on the low half of the id)")
+    return n
